@@ -179,7 +179,7 @@ def judgeCols (env : Env) (s s' : State) (op : Op) : String :=
       match absM env p s with
       | (.ok k, _) => (match entriesOf s k with
         | .ok (rootE, snap) =>
-          let cls := if r.contentsFirst && r.min > 0 then "contents_first_min_depth_order" else "-"
+          let cls := "-"
           if r.follow then
             -- recursive walk specification with link following and loop detection (Spec/WalkFollow.lean)
             let (es, err) := Spec.entriesSpecF snap r.opts rootE
